@@ -15,6 +15,7 @@ from fractions import Fraction
 
 import findings
 import progs
+import syntax_tie
 from sched_family import run_model, _init_worker, CaseTimeout, _alarm
 
 HERE = os.path.dirname(os.path.abspath(__file__))
@@ -504,6 +505,12 @@ def add_twin_literals(vgen, prog, rng):
     return True
 
 
+def vgen_selftest_first_difference(a, b):
+    import vgen_selftest
+
+    return vgen_selftest.first_difference(a, b)
+
+
 def job_c12(args):
     """a well-formed program in several layouts: the parsed Process must equal the generating AST; the denter's
     block structure is compared with the Lean denter model; illegal characters must be rejected"""
@@ -554,6 +561,17 @@ def job_c12(args):
                 elif canon is not None and canon != base_model:
                     rec["diffs"] = (rec.get("diffs") or []) + ["model differs between layouts"]
             rec["denter"] = denter_case(text)
+            if process is not None and valid:
+                # the statement-level grammar model: the real token stream and what the real visitor made of it
+                try:
+                    tk = syntax_tie.syntax_tokens(text)
+                    if tk is not None:
+                        impl_syn, leaves = syntax_tie.process_syntax(process)
+                        rec["syn"] = {"toks": tk[0], "impl": impl_syn, "leaves": syntax_tie.leaves_agree(tk[1], leaves)}
+                    else:
+                        rec["syn"] = {"skipped": True}
+                except Exception as ex:  # noqa: BLE001
+                    rec["syn"] = {"failed": "%s %s" % (type(ex).__name__, ex)}
             out["layouts"].append(rec)
         # illegal characters: single insertions at random positions outside strings and comments
         p = copy.deepcopy(prog)
@@ -582,6 +600,42 @@ def job_c12(args):
                 out["illegal"].append({"pos": pos, "ch": ch, "valid": valid, "out": buf.getvalue()[:120], "text": t2 if valid else None})
             except Exception as ex:  # noqa: BLE001
                 out["illegal"].append({"pos": pos, "ch": ch, "exc": type(ex).__name__, "text": t2})
+        signal.alarm(0)
+        return out
+    except CaseTimeout:
+        out["timeout"] = True
+        return out
+    finally:
+        signal.alarm(0)
+
+
+def job_c12_mutants(args):
+    """token- and character-level mutations of a well-formed text: the generated parser (lexer + denter + PFDLParser)
+    reads the text without a syntax error iff the statement-level model reads its token stream"""
+    import vgen
+    import valid_family as vf
+
+    seed, size = args
+    rng = random.Random(seed)
+    signal.signal(signal.SIGALRM, _alarm)
+    signal.alarm(120)
+    out = {"seed": seed, "cases": []}
+    try:
+        prog = vf.gen_wf(rng, size)
+        text = vgen.print_program(copy.deepcopy(prog), vgen.random_layout(rng) if rng.random() < 0.5 else None)
+        for _ in range(5):
+            kind, t2 = vf.mutate_text(rng, text)
+            if kind in ("huge_number", "deep_parens", "identity") or len(t2) > 12000:
+                continue
+            try:
+                tk = syntax_tie.syntax_tokens(t2)
+                if tk is None:
+                    out["cases"].append({"kind": kind, "skipped": True})
+                    continue
+                a = syntax_tie.antlr_accepts(t2)
+            except RecursionError:
+                continue
+            out["cases"].append({"kind": kind, "text": t2, "toks": tk[0], "antlr": a})
         signal.alarm(0)
         return out
     except CaseTimeout:
@@ -895,6 +949,49 @@ def _run_c12(ctx, pool, res):
             _add(res, seen, prop, "model_differs_from_text", "array type written with a length: " + str(r["problem"]), {"text": r["text"]})
     # correspondence with the Lean denter model: same INDENT / DEDENT / NL pattern
     disagreements = []
+    # correspondence with the Lean grammar model (Syntax.lean): same model from the same token stream ...
+    syn_reqs, syn_stats = [], {"compared": 0, "skipped": 0, "mutants": 0, "mutants_accepted": 0, "mutants_skipped": 0}
+    for r in results:
+        for l in r.get("layouts", []):
+            sy = l.get("syn")
+            if not sy:
+                continue
+            if sy.get("failed"):
+                disagreements.append((l["text"], "token stream / visitor model could not be read: " + sy["failed"]))
+            elif sy.get("skipped"):
+                syn_stats["skipped"] += 1
+            else:
+                if sy.get("leaves"):
+                    _add(res, seen, prop, "model_differs_from_text", "operands of the expressions: " + sy["leaves"], {"text": l["text"]})
+                syn_reqs.append(("same", l["text"], sy))
+    # ... and the same accept / reject verdict as the generated parser on mutated texts
+    for r in pool.map(job_c12_mutants, [(seed * 17 + i, 2) for i in range(60 if quick else 600)], chunksize=2):
+        for c in r.get("cases", []):
+            n_eval += 1
+            if c.get("skipped"):
+                syn_stats["mutants_skipped"] += 1
+            else:
+                syn_reqs.append(("mutant", c["text"], c))
+    if ctx["model_ok"] and syn_reqs:
+        resps = run_model([{"k": "syntax", "toks": x[2]["toks"]} for x in syn_reqs])
+        for (what, text, sy), resp in zip(syn_reqs, resps):
+            if "error" in resp:
+                disagreements.append((text, "grammar model error " + resp["error"][:200]))
+            elif what == "same":
+                syn_stats["compared"] += 1
+                m = syntax_tie.model_syntax(resp)
+                if m is None:
+                    disagreements.append((text, "grammar model: the token stream of an accepted text is not read"))
+                else:
+                    d = vgen_selftest_first_difference(syntax_tie.typed(sy["impl"]), syntax_tie.typed(m))
+                    if d:
+                        disagreements.append((text, "grammar model vs visitor (implementation first): " + d))
+            else:
+                syn_stats["mutants"] += 1
+                syn_stats["mutants_accepted"] += int(bool(resp.get("ok")))
+                if bool(resp.get("ok")) != sy["antlr"]["parser_ok"]:
+                    disagreements.append((text, "generated parser %s (%s), grammar model %s" % (
+                        "accepts" if sy["antlr"]["parser_ok"] else "rejects", "; ".join(sy["antlr"]["msgs"][:2]), "accepts" if resp.get("ok") else "rejects")))
     if ctx["model_ok"] and denter_reqs:
         resps = run_model([{"k": "denter", "text": t} for t, _ in denter_reqs])
         for (t, pat), resp in zip(denter_reqs, resps):
@@ -905,15 +1002,16 @@ def _run_c12(ctx, pool, res):
     elif not ctx["model_ok"]:
         res["unexplained"].append({"what": "the Lean model does not build: " + "; ".join(ctx["build"].get("build_errors", [])[:3])})
     if disagreements and not res["violations"]:
-        res["unexplained"].append({"what": "correspondence broken (lexer layout + denter model) on %d of %d texts: %s" % (len(disagreements), len(denter_reqs), disagreements[0][1]),
+        res["unexplained"].append({"what": "correspondence broken (lexer layout + denter model, grammar model) on %d of %d texts: %s" % (len(disagreements), len(denter_reqs) + len(syn_reqs), disagreements[0][1]),
                                    "case": {"text": disagreements[0][0]}, "detail": disagreements[0][1]})
     for v in res["violations"]:
         v["replay_obj"]["occurrences"] = seen.get(v["rule"])
     res["coverage"] = {
         "programs": len(distinct), "evaluations": n_eval, "distinct_nontrivial": len(nontrivial),
-        "rule": "well-formed programs (tools/vgen.py) printed in the default and 3 random layouts (indent width 1..8 varying per block, comments, blank lines with and without blanks, trailing blanks, CRLF, missing final newline, 3 struct-literal placements, leading blank / comment lines); the parsed Process model compared field by field with the generating AST (strict types, source order); 10 single illegal-character insertions per program outside strings / comments; distinct by text; non-trivial: parsed and compared",
-        "traces_validated_against_impl": len(denter_reqs) if ctx["model_ok"] else 0,
+        "rule": "well-formed programs (tools/vgen.py) printed in the default and 3 random layouts (indent width 1..8 varying per block, comments, blank lines with and without blanks, trailing blanks, CRLF, missing final newline, 3 struct-literal placements, leading blank / comment lines); the parsed Process model compared field by field with the generating AST (strict types, source order); 10 single illegal-character insertions per program outside strings / comments; the token stream of the real lexer + denter of every accepted text is read by the Lean grammar model (Syntax.lean) and its answer compared with the Process object of the real visitor (definitions, statements, parameters, types, literals, expression trees, lines); on token- / character-level mutants the accept / reject verdict of the generated parser is compared with the model's; distinct by text; non-trivial: parsed and compared",
+        "traces_validated_against_impl": (len(denter_reqs) + syn_stats["compared"] + syn_stats["mutants"]) if ctx["model_ok"] else 0,
         "disagreements_checked": len(disagreements), "illegal_insertions": n_illegal, "layout_features": layout_hist,
+        "grammar_model": syn_stats,
         "samples": [sample] if sample else [],
     }
 
